@@ -87,9 +87,22 @@ func NewRemoteHTTPStoreBase(location *url.URL, opt StoreOptions) (*RemoteHTTPBas
 	} else if timeout < 0 {
 		timeout = 0
 	}
-	client := &http.Client{Transport: tr, Timeout: timeout}
+	client := &http.Client{Transport: tr, Timeout: timeout, CheckRedirect: checkRedirect}
 
 	return &RemoteHTTPBase{location: location, client: client, opt: opt, converters: opt.converters()}, nil
+}
+
+// checkRedirect follows redirects like the default policy of net/http does, with
+// one exception: a 301, 302 or 303 answer to a PUT would be followed with a GET
+// (without the body), and the answer to that taken for the outcome of the upload.
+func checkRedirect(req *http.Request, via []*http.Request) error {
+	if len(via) >= 10 {
+		return errors.New("stopped after 10 redirects")
+	}
+	if via[0].Method == http.MethodPut && req.Method != http.MethodPut {
+		return fmt.Errorf("%s %s was redirected to %s in a way that drops the upload", via[0].Method, via[0].URL, req.URL)
+	}
+	return nil
 }
 
 func (r *RemoteHTTPBase) String() string {
